@@ -204,6 +204,45 @@ func writeHello(st *stream.Stream, id string, omit bool, addr string) error {
 	return msg.FinishMessage(ctx)
 }
 
+// writeBadGreeting sends an opening message that carries the RIGHT connect id but is
+// not a well-formed reverse-connect hello ("a malformed greeting" of the statement).
+func writeBadGreeting(st *stream.Stream, id, addr string, salt int) error {
+	ctx, cancel := context.WithTimeout(context.Background(), 2*time.Second)
+	defer cancel()
+	ad := classad.New()
+	_ = ad.Set(ccb.AttrClaimID, id)
+	_ = ad.Set(ccb.AttrRequestID, "1")
+	_ = ad.Set(ccb.AttrMyAddress, addr)
+	putAd := func(m *message.Message) error {
+		return m.PutClassAdWithOptions(ctx, ad, &message.PutClassAdConfig{Options: message.PutClassAdIncludePrivate})
+	}
+	msg := message.NewMessageForStream(st)
+	var err error
+	switch salt % 8 {
+	case 0, 1, 2, 3, 4: // another command integer, then the ad
+		cmd := []int{ccb.CommandRequest, 0, 60011, ccb.CommandReverseConnect + 1, -1}[salt%8]
+		if err = msg.PutInt(ctx, cmd); err == nil {
+			err = putAd(msg)
+		}
+	case 5: // the command integer is missing
+		err = putAd(msg)
+	case 6: // an extra item in front of the command
+		if err = msg.PutInt(ctx, 0); err == nil {
+			if err = msg.PutInt(ctx, ccb.CommandReverseConnect); err == nil {
+				err = putAd(msg)
+			}
+		}
+	default: // the ad before the command
+		if err = putAd(msg); err == nil {
+			err = msg.PutInt(ctx, ccb.CommandReverseConnect)
+		}
+	}
+	if err != nil {
+		return err
+	}
+	return msg.FinishMessage(ctx)
+}
+
 func garbageBytes(salt int) []byte {
 	switch salt % 5 {
 	case 0: // a well-framed message that is no hello
@@ -367,6 +406,8 @@ steps:
 			case "garbage":
 				_ = conn.SetWriteDeadline(time.Now().Add(2 * time.Second))
 				_, _ = conn.Write(garbageBytes(p.Salt + len(peers)))
+			case "badGreeting":
+				_ = writeBadGreeting(stream.NewStream(conn), r.id, r.myAddr, p.Salt+len(peers))
 			default:
 				id, omit := helloID(ev.K, r.id, other, p.Salt+len(peers))
 				_ = writeHello(stream.NewStream(conn), id, omit, r.myAddr)
@@ -403,6 +444,8 @@ steps:
 				case "garbage":
 					_ = r.conn.SetWriteDeadline(time.Now().Add(2 * time.Second))
 					_, _ = r.conn.Write(garbageBytes(p.Salt + ev.B))
+				case "badGreeting":
+					_ = writeBadGreeting(r.st, r.id, "127.0.0.1:1", p.Salt+ev.B)
 				case "close":
 					// the broker hangs up its sending side (it can still observe what the
 					// requester does with the connection afterwards)
